@@ -306,6 +306,12 @@ class Builder:
     def b_Nonce(self, e, env):
         return pt.Nonce(e[1], e[2], self.b(e[3], env))
 
+    def b_AbiTmp(self, e, env):
+        """("AbiTmp", kind, expr): a fresh ABI value of the kind set from expr, then read back (u64/u16/u8 -> uint64, str/addr -> bytes)"""
+        ctor = {"u64": pt.abi.Uint64, "u16": pt.abi.Uint16, "u8": pt.abi.Uint8, "bool": pt.abi.Bool, "str": pt.abi.String, "addr": pt.abi.Address}[e[1]]
+        x = ctor()
+        return pt.Seq(x.set(self.b(e[2], env)), x.get())
+
     def b_GGet(self, e, env):
         return pt.App.globalGet(self.b(e[1], env))
 
